@@ -72,6 +72,24 @@ def check_impl(chk, prog, im, c):
     if nt is None:
         chk.inst("needs-trace", name, True, nontrivial=False)  # inherits the default `true`
         return
+    # does trace() itself report a pointer the type holds directly (trace_gc / trace_gc_weak, or Trace::trace /
+    # Collect::trace on a Gc / GcWeak)? Then the constant must be true on every path: containers gate the tracing of
+    # their contents on it, so a `false` here means the pointer is never marked once the value sits inside another
+    # object (the root itself is traced unconditionally, which is why tests with the value as root stay green).
+    reports = []
+    if tr is not None:
+        tkeys = [k for k in prog.seed_n.get(norm(tr["path"]), []) if prog.bodies[k]["def"] == tr["path"]]
+        if tkeys:
+            for site in coverage.trace_sites(prog, prog.bodies[tkeys[0]]):
+                if site.kind in ("strong", "weak") or (site.ty_s or "").startswith(("gc::Gc<", "gc_weak::GcWeak<")):
+                    reports.append("%s at line %s" % (site.kind if site.kind in ("strong", "weak") else site.ty_s, site.line))
+
+    def holds_pointer_problem(can_be_false):
+        if reports and can_be_false:
+            return ["NEEDS_TRACE %s false although trace() reports a pointer held directly by the type (%s): every container "
+                    "skips tracing this type, so the pointer is never marked unless the value is the root itself" % (
+                        "is" if can_be_false == "is" else "can be", reports[0])]
+        return []
     cinfo = prog.consts.get(nt["path"], {})
     if "value" in cinfo:
         val = bool(cinfo["value"])
@@ -79,10 +97,12 @@ def check_impl(chk, prog, im, c):
             chk.inst("needs-trace", name, True, sample={"impl": im["self_s"], "NEEDS_TRACE": True})
         else:
             static = any(p["k"] == "type_outlives" and p["lt"] == "'static" for p in im["predicates"])
-            ok = not params and (static or im["self_s"] in POINTER_FREE)
+            hp = holds_pointer_problem("is")
+            ok = not params and (static or im["self_s"] in POINTER_FREE) and not hp
             chk.inst("needs-trace", name, ok,
-                     detail="impl Collect for %s claims NEEDS_TRACE = false without a 'static bound (and is not a reviewed "
-                            "pointer-free type): values holding arena pointers would never be traced" % im["self_s"], loc=loc,
+                     detail=(hp[0] if hp else
+                             "impl Collect for %s claims NEEDS_TRACE = false without a 'static bound (and is not a reviewed "
+                             "pointer-free type): values holding arena pointers would never be traced" % im["self_s"]), loc=loc,
                      sample={"impl": im["self_s"], "NEEDS_TRACE": False, "static_bound": static})
         return
     keys = [k for k in prog.seed_n.get(norm(nt["path"]), []) if prog.bodies[k]["def"] == nt["path"]]
@@ -109,7 +129,17 @@ def check_impl(chk, prog, im, c):
         if res is True:
             continue
         if res is False:
+            probs += holds_pointer_problem("can")
             missing = [p for p in pnames if p not in tested_false]
+            if not pnames:
+                # no Collect-bounded parameter to derive the constant from: `false` needs a reason
+                static = any(pr["k"] == "type_outlives" and pr["lt"] == "'static" for pr in im["predicates"])
+                if not static and im["self_s"] not in POINTER_FREE and not reports:
+                    lts = [g["name"] for g in im["generics"] if g["kind"] == "lifetime"]
+                    brand = [a["lt"] for a in im["trait_args"] if "lt" in a]
+                    if any(l in im["self_s"] for l in brand):
+                        probs.append("NEEDS_TRACE can be false for a branded type (%s) without a 'static bound: values holding "
+                                     "arena pointers would never be traced" % im["self_s"])
             if missing:
                 static = any(pr["k"] == "type_outlives" and pr["lt"] == "'static" for pr in im["predicates"])
                 if not (static and not params) and im["self_s"] not in POINTER_FREE:
